@@ -27,9 +27,24 @@ class Facts:
         self.impls = raw["items"]["impls"]
         self.traits = raw["items"]["traits"]
         self.bodies = raw["bodies"]
+        # scalar constants read as their value: naming a literal (or inlining a named one) changes nothing
+        consts = {}
+        for b in self.bodies:
+            if b.get("kind", "").startswith(("Const", "AssocConst")) and isinstance(b.get("body"), dict):
+                v = b["body"]
+                while isinstance(v, dict) and v.get("k") == "block" and not v.get("stmts") and v.get("expr"):
+                    v = v["expr"]
+                if isinstance(v, dict) and v.get("k") == "lit":
+                    consts[b["path"]] = v
+        self.consts = consts
+        for b in self.bodies:
+            if "body" in b and not b.get("kind", "").startswith(("Const", "AssocConst")):
+                b["body"] = _inline_consts(b["body"], consts)
         for b in self.bodies:
             if "body" in b:
                 b["body"] = simplify(b["body"])
+                if (b.get("output") or "").startswith(("std::result::Result<", "std::option::Option<")):
+                    b["body"] = tail_maps(b["body"], (b.get("output") or "").startswith("std::result::Result<"))
                 if not os.environ.get("VERIF_OLDNAMES"):
                     canon_locals(b)
         self.body_by_path = {}
@@ -566,3 +581,73 @@ def walk_guards(p):
         yield from walk_guards(q)
     if p.get("pat"):
         yield from walk_guards(p["pat"])
+
+
+def tail_maps(n, is_result):
+    """In result position `R.map(Ctor)` is `Ok(Ctor(R?))` (resp. `Some(Ctor(O?))`): rewrite it so, so that the
+    combinator spelling and the `let x = R?; Ok(Ctor(x))` spelling are one shape for every rule."""
+    if not isinstance(n, dict):
+        return n
+    k = n.get("k")
+    if k == "block":
+        if n.get("expr") is not None:
+            n = dict(n)
+            n["expr"] = tail_maps(n["expr"], is_result)
+        if n.get("stmts"):
+            n = dict(n)
+            n["stmts"] = [_ret_maps(s, is_result) for s in n["stmts"]]
+        return n
+    if k == "if":
+        n = dict(n)
+        n["then"] = tail_maps(n.get("then"), is_result)
+        if n.get("else") is not None:
+            n["else"] = tail_maps(n["else"], is_result)
+        return n
+    if k == "match":
+        n = dict(n)
+        n["arms"] = [dict(a, body=tail_maps(a.get("body"), is_result)) for a in n.get("arms") or []]
+        return n
+    if k == "ret" and n.get("e") is not None:
+        return dict(n, e=tail_maps(n["e"], is_result))
+    if k == "mcall" and n.get("m") == "map" and len(n.get("args") or []) == 1:
+        a = n["args"][0]
+        f = n.get("f") or ""
+        if isinstance(a, dict) and a.get("k") == "def" and a.get("dk") == "ctor" and \
+                ((is_result and f.endswith("Result::<T, E>::map")) or (not is_result and f.endswith("Option::<T>::map"))):
+            inner = {"k": "call", "ln": n.get("ln"), "ctor": True, "f": a.get("def"),
+                     "args": [{"k": "try", "ln": n.get("ln"), "e": n.get("recv"), "t": (n.get("ga") or [None])[0]}]}
+            return {"k": "call", "ln": n.get("ln"), "ctor": True,
+                    "f": "std::prelude::v1::Ok" if is_result else "std::prelude::v1::Some", "args": [inner],
+                    "t": n.get("t")}
+    return n
+
+
+def _ret_maps(s, is_result):
+    """`return R.map(Ctor)` inside statements"""
+    if not isinstance(s, dict):
+        return s
+    if s.get("k") == "ret":
+        return tail_maps(s, is_result)
+    out = {}
+    for kk, v in s.items():
+        if kk == "closure":
+            out[kk] = v
+        elif isinstance(v, dict):
+            out[kk] = _ret_maps(v, is_result) if v.get("k") != "closure" else v
+        elif isinstance(v, list):
+            out[kk] = [_ret_maps(x, is_result) if isinstance(x, dict) and x.get("k") != "closure" else x for x in v]
+        else:
+            out[kk] = v
+    return out
+
+
+def _inline_consts(n, consts):
+    if isinstance(n, list):
+        return [_inline_consts(x, consts) for x in n]
+    if not isinstance(n, dict):
+        return n
+    if n.get("k") == "def" and n.get("dk") in ("const", "assoc_const") and n.get("def") in consts:
+        v = dict(consts[n["def"]])
+        v["from_const"] = n["def"]
+        return v
+    return {k: (_inline_consts(v, consts) if isinstance(v, (dict, list)) else v) for k, v in n.items()}
